@@ -1,4 +1,5 @@
 //! Runtime-monitoring harness for irlserver/srtla_send (see /verif/DESIGN.md).
+pub mod linkgen;
 pub mod prng;
 pub mod refcodec;
 pub mod report;
